@@ -942,7 +942,7 @@ def classify(kind, op, value, prev=None):
         name += ":" + op[2]
     if k == "eq_self":
         name += ":" + op[1]
-    if k in ("pf", "fci", "ci", "it", "as_pf", "as_fcol", "as_col", "as_item") and any(h[0] in ("cs", "rcs") and h[-1][2] not in (None, 1) for h in (prev or [])):
+    if k in ("pf", "fci", "ci", "it", "as_pf", "as_fcol", "as_col", "as_item") and not (k == "as_item" and op[-1] == "str") and any(h[0] in ("cs", "rcs") and h[-1][2] not in (None, 1) for h in (prev or [])):
         # an integer column index (a[:, j], a[i, j], a[rows, j], a[rows, cols]) on a lazy view that descends from
         # a[:, ::step], step != 1, ignores the step: fails as a region on the unchanged tree
         return "R.column-int-index:after-stepped-colslice"
@@ -1132,12 +1132,12 @@ def plan(tier):
     # depth 2 --------------------------------------------------------------------------------------------------------
     P.append(("d2", ["base"], "R", REPR_SHAPES if q else shapes(3, 2) + [(1, 0, 0, 2), (3, 3, 3)],
               [False], 2, "core" if q else "mid", None))
-    P.append(("d2", ["dna"], "R", [(0, 2), (3, 1), (2, 0, 3), (0, 3, 0), (1, 0, 0, 2)] if q else REPR_SHAPES, [False], 2, "core" if q else "mid", None))
+    P.append(("d2", ["dna"], "R", [(0, 2), (3, 1), (2, 0, 3), (1, 0, 0, 2)] if q else REPR_SHAPES, [False], 2, "core" if q else "mid", None))
     P.append(("d2-flat", ENCS_MAIN, "F", [(L,) for L in range(0, 5 if q else 7)], [True], 2, "core" if q else "mid", None))
     P.append(("d2-other-encodings", ENCS_OTHER, "R", [(2, 0, 3)] if q else [(2, 0, 3), (0, 2), (3, 1)], [False], 2, "core", 300 if q else None))
     P.append(("d2-other-encodings-flat", ENCS_OTHER, "F", [(4,)], [True], 2, "core", 150 if q else None))
     # depth 3 (sampled with the seed: the space of CORE x CORE x (CORE + observations) is ~65 000 programs per shape) ----
-    P.append(("d3", ENCS_MAIN, "R", REPR_SHAPES, [False], 3, "core", 400 if q else 9000))
+    P.append(("d3", ENCS_MAIN, "R", REPR_SHAPES, [False], 3, "core", 250 if q else 9000))
     P.append(("d3-flat", ENCS_MAIN, "F", [(0,), (2,), (4,)], [True], 3, "core", 300 if q else 4000))
     return P
 
